@@ -121,7 +121,7 @@ def _w(chunk):
         starts = live if len(live) <= nstarts else live[:nstarts // 2] + live[-(nstarts - nstarts // 2):]
         if what == 'long':
             st3 = [live[0], live[len(live) // 2], live[-1]]
-            for n, stride in ((40, 1), (200, 7)) if quick else ((40, 1), (120, 1), (400, 5)):
+            for n, stride in ((40, 1), (200, 7)) if quick else ((40, 1), (160, 3), (400, 9)):
                 explore_long(r, k, G, [st3[nstarts]], n, stride)
             r.ctr['graphs_k%d' % k] += 1
             r.maxi('item_wall_s_%s_k%d' % (what, k), _t.time() - _t0)
@@ -129,7 +129,7 @@ def _w(chunk):
         explore(r, k, G, starts, 3 * k + 3, 1 if quick else 2)
         explore(r, k, G, starts, 4 * k + 5, 1)
         if dbl:
-            explore(r, k, G, starts[:2] if quick else starts[:4], 7 * k + 4, 0, double=True, dev2=1 if quick else 2)
+            explore(r, k, G, starts[:2] if quick else starts[:3], 7 * k + 4, 0, double=True, dev2=1 if (quick or k > 1) else 2)
         r.ctr['graphs_k%d' % k] += 1
         r.maxi('item_wall_s_%s_k%d' % (what, k), _t.time() - _t0)
     r.sample(_LAST.get('case') or {'graph': core._j(item[2]) if item[0] == 'mask' else RP.gcase(item[1], item[2]), 't': item[3]}, 1)
@@ -138,7 +138,7 @@ def _w(chunk):
 
 def strata(quick):
     """Order-2 generated graphs (closed masks), the first m of every (vertex count, threshold) stratum."""
-    m_per = 6 if quick else 24
+    m_per = 6 if quick else 12
     cnt, out = {}, []
     for m, t in RP.k2_generated_masks((2, 3)):
         key = (bin(m).count('1'), t)
@@ -171,11 +171,11 @@ def run(ctx):
     ctx.log('graphs', len(items))
     ctx.pmap(_w, [(q, [it]) for it in items])
     ctx.bounds = {'order1': 'every distinct generated graph (all 15 masks x t=1..4)',
-                  'order2': 'first %d generated graphs of every (vertex count, threshold in {2,3}) stratum: %d graphs' % (6 if q else 24, len(st)),
+                  'order2': 'first %d generated graphs of every (vertex count, threshold in {2,3}) stratum: %d graphs' % (6 if q else 12, len(st)),
                   'filter_graphs_k2_k3': len(fg), 'walks': 'length 3k+3 and 4k+5, at most %d non-default arc choices' % (1 if q else 2),
                   'single_edits': 'every position of [k, n-2k), every substitution, insertion and deletion',
                   'double_edits': 'spacing >= 3k+2 on walks of length 7k+4 (subset of graphs and starts)',
-                  'long_walks': 'rule-generated walks of 40 and 200 (120, 400) nucleotides on filter graphs of order 2..5, every single edit at every (7th / 5th) interior position'}
+                  'long_walks': 'rule-generated walks of 40 and 200 (40, 160, 400) nucleotides on filter graphs of order 2..5, every single edit at every (1st/7th; 1st/3rd/9th) interior position'}
     ctx.exhaustive = False
     ctx.rule = ('one case = (generated graph, start, walk, edit set): repair with indel handling on and heap 1e9 (also with the check of '
                 'the original, and with indel handling off for substitutions): if detected == number of edits the original is among '
